@@ -327,6 +327,8 @@ def run(ctx: Any, prog: Program) -> None:
     ctx.rule('C06.V3', 'significant-digit float formatting only on the fields the property allows (rotation, delay, Vec4)', floor=3)
     ctx.rule('C06.V4', 'displacement row blocks: written tokens per row equal what the reader demands', floor=10)
     ctx.rule('C06.V6', 'world brushes are exported with their group/visgroup membership (include_groups is true for worldspawn)', floor=1)
+    ctx.rule('C06.V7', 'composite values ending in free text are split by the reader on exactly the separator the writer inserts, with maxsplit = fields - 1', floor=2)
+    ctx.rule('C06.V8', 'displacement rows: reader and writer address vertex (x, y) of a row block as index size*y + x', floor=8)
     ctx.rule('C06.V5', 'IDs read from the file are passed to the constructors; preserve_ids selects the pass-through manager', floor=6)
 
     # every class with both export and parse must be in PAIRS (discovery cross-check)
@@ -487,6 +489,112 @@ def run(ctx: Any, prog: Program) -> None:
         raise AnalysisError(f'Entity.export: include_groups argument `{ast.unparse(arg)}` is not a function of _is_worldspawn')
     ctx.check('C06.V6', bool(val) is True, vm, calls[0], f'Entity.export passes include_groups={ast.unparse(arg)}: for the worldspawn entity this is {val!r}, so world brushes are '
               'written without "groupid"/"visgroupid" although VisGroup.child_solids() and Solid.group_id keep that membership on the brush itself', text='world brushes keep group keys')
+    # ---- V7: composite value separators -------------------------------------------------------------------
+    def writer_value_separators(qual: str, key_prefix: str) -> Optional[List[str]]:
+        fnw = vm.func(qual)
+        for em in emits_in(fnw):
+            for ln in em.lines:
+                if len(ln.strings) >= 2:
+                    k = ''.join(p.text for p in ln.strings[0] if p.kind == 'lit')
+                    if k.startswith(key_prefix):
+                        seps, cur, seen_slot = [], '', False
+                        for pz in ln.strings[1]:
+                            if pz.kind == 'lit':
+                                cur += pz.text
+                            else:
+                                if seen_slot:
+                                    seps.append(cur)
+                                cur = ''
+                                seen_slot = True
+                        return seps
+        return None
+
+    def reader_split(fnr: ast.AST, near: str) -> Optional[ast.Call]:
+        best = None
+        for n in ast.walk(fnr):
+            if isinstance(n, ast.Call) and isinstance(n.func, ast.Attribute) and n.func.attr == 'split' and 'value' in ast.unparse(n.func.value):
+                # the split that sits under the branch mentioning `near`
+                p = vm.parents.get(n)
+                while p is not None and p is not fnr:
+                    if isinstance(p, ast.If) and near in ast.unparse(p.test):
+                        best = n
+                    p = vm.parents.get(p)
+        return best
+    for wq, prefix, rq, near, last_is_text in (('EntityFixup.export', 'replace', 'Entity.parse', "'replace'", True),
+                                                ('Side.export', 'point', 'Side._parse_strata_points', "'point'", False)):
+        seps = writer_value_separators(wq, prefix)
+        sp = reader_split(vm.func(rq), near)
+        if seps is None or sp is None:
+            raise AnalysisError(f'V7: cannot locate the composite value writer {wq}/"{prefix}" or its reader split in {rq}')
+        sep_arg = sp.args[0] if sp.args else None
+        max_arg = sp.args[1] if len(sp.args) > 1 else None
+        wsep = seps[-1].replace('$', '') if seps else None
+        ok_sep = isinstance(sep_arg, ast.Constant) and sep_arg.value == wsep
+        ok_max = isinstance(max_arg, ast.Constant) and max_arg.value == len(seps)
+        if not last_is_text:
+            ok_sep = ok_sep or sep_arg is None or (isinstance(sep_arg, ast.Constant) and sep_arg.value is None)
+        ctx.check('C06.V7', ok_sep and ok_max, vm, sp, f'{rq} splits the "{prefix}..." value with `{ast.unparse(sp)[:50]}` but {wq} joins its {len(seps) + 1} fields with {seps!r}'
+                  + ('; the last field is free text, so a different separator or split count strips/merges characters of the value' if last_is_text else ''),
+                  func=rq, text=f'{prefix} value split')
+    # ---- V8: vertex addressing in displacement rows -----------------------------------------------------------
+    def lin2(e: ast.AST, env2: Dict[str, Tuple[int, int]]) -> Optional[Dict[str, Tuple[int, int]]]:
+        """linear form in the loop variables x and y whose coefficients are linear in S"""
+        if isinstance(e, ast.Name) and e.id in ('x', 'y'):
+            return {e.id: (0, 1)}
+        c = lin(e, env2)
+        if c is not None:
+            return {'1': c}
+        if isinstance(e, ast.BinOp) and isinstance(e.op, (ast.Add, ast.Sub)):
+            l, r = lin2(e.left, env2), lin2(e.right, env2)
+            if l is None or r is None:
+                return None
+            out = dict(l)
+            for k, v in r.items():
+                sgn = 1 if isinstance(e.op, ast.Add) else -1
+                a0 = out.get(k, (0, 0))
+                out[k] = (a0[0] + sgn * v[0], a0[1] + sgn * v[1])
+            return out
+        if isinstance(e, ast.BinOp) and isinstance(e.op, ast.Mult):
+            l, r = lin2(e.left, env2), lin2(e.right, env2)
+            if l is None or r is None:
+                return None
+            if set(l) == {'1'} :
+                kcoef, other = l['1'], r
+            elif set(r) == {'1'}:
+                kcoef, other = r['1'], l
+            else:
+                return None
+            out = {}
+            for k, v in other.items():
+                # (a*S+b) * (c*S+d) stays linear only if one factor is constant in S
+                if kcoef[0] and v[0]:
+                    return None
+                out[k] = (kcoef[0] * v[1] + v[0] * kcoef[1], kcoef[1] * v[1])
+            return out
+        return None
+    env_s = {'size': (1, 0), 'tri_tags_count': (1, -1)}
+    n_idx = 0
+    for rq in ('Side._parse_displacement_data', 'Side._parse_disp_vecrow'):
+        fnr = vm.func(rq)
+        for n in ast.walk(fnr):
+            if isinstance(n, ast.Subscript) and dotted(n.value) == 'self._disp_verts' and not isinstance(n.slice, ast.Slice):
+                form = lin2(n.slice, env_s)
+                if form is None:
+                    raise AnalysisError(f'{rq}:{n.lineno}: vertex index `{ast.unparse(n.slice)}` is not linear in x, y')
+                n_idx += 1
+                ok = form.get('y') == (1, 0) and form.get('x') == (0, 1) and form.get('1', (0, 0)) == (0, 0)
+                ctx.check('C06.V8', ok, vm, n, f'{rq} stores row data into vertex `{ast.unparse(n.slice)}`; the exporter takes row y, item x from vertex size*y + x '
+                          '(the vertex grid is size wide for every block, including the (size-1)-wide triangle_tags)', func=rq, text=f'vertex index {ast.unparse(n.slice)}')
+    for wq in ('Side._export_displacement', 'Side._export_disp_rowset'):
+        fnw = vm.func(wq)
+        for n in ast.walk(fnw):
+            if isinstance(n, ast.Subscript) and isinstance(n.slice, ast.Slice) and n.slice.lower is not None and \
+                    (dotted(n.value) in ('self._disp_verts', 'rows')):
+                form = lin2(n.slice.lower, env_s)
+                ok = form is not None and form.get('y') == (1, 0) and form.get('x', (0, 0)) == (0, 0) and form.get('1', (0, 0)) == (0, 0)
+                n_idx += 1
+                ctx.check('C06.V8', ok, vm, n, f'{wq} starts row y at `{ast.unparse(n.slice.lower)}`; rows of the vertex grid start at size*y', func=wq,
+                          text=f'row start {ast.unparse(n.slice.lower)}')
     # ---- V5 --------------------------------------------------------------------------------------------
     vp = vm.func('VMF.parse')
     vcalls = [c for c in walk_no_nested(vp) if isinstance(c, ast.Call) and dotted(c.func) == 'VMF']
@@ -656,6 +764,8 @@ def elt_token_alternatives(elt: ast.AST, tokens_of_type: Dict[str, int]) -> Opti
 
 
 MUTANTS = [
+    {'id': 'fixup_split_whitespace', 'file': 'vmf.py', 'find': "                        vals = item.value.split(\" \", 1)", 'replace': "                        vals = item.value.split(None, 1)", 'expect': 'C06.V7'},
+    {'id': 'tri_tags_wrong_stride', 'file': 'vmf.py', 'find': "                    vert = self._disp_verts[y * size + x]", 'replace': "                    vert = self._disp_verts[y * tri_tags_count + x]", 'expect': 'C06.V8'},
     {'id': 'world_groups_dropped', 'file': 'vmf.py', 'find': "                    include_groups=_is_worldspawn,", 'replace': "                    include_groups=not _is_worldspawn,", 'expect': 'C06.V6'},
     {'id': 'triangle_tags_per_vertex', 'file': 'vmf.py', 'find': "                for vert in self._disp_verts[size * y:size * (y+1) - 1]", 'replace': "                for vert in self._disp_verts[size * y:size * (y+1)]", 'expect': 'C06.V4'},
     {'id': 'material_unescaped', 'file': 'vmf.py', 'find': "\"material\" \"{escape_text(self.mat)}\"", 'replace': "\"material\" \"{self.mat}\"", 'expect': 'C06.V2'},
